@@ -1,5 +1,6 @@
 // ---- src/repr/bdd.rs: BddPtr / BddNode, complement-edge accessors, the DDNNFPtr impl ----
 //%% include inc/varlabel.rs
+//%% include prelude/pvo.rs
 
 #[derive(Clone, Copy)]
 //%% extract src/repr/bdd.rs :: - :: enum BddPtr
@@ -54,14 +55,13 @@ impl<'a> PartialEq for BddNode<'a> {
 //%% end
 }
 
-impl<'a> BddPtr<'a> {
+impl<'a> PartialVariableOrder for BddPtr<'a> {
+    open spec fn var_s(&self) -> Option<VarLabel> { if is_node(*self) { Some(node_of(*self).var) } else { None } }
 //%% extract src/repr/bdd.rs :: impl<'a> PartialVariableOrder for BddPtr<'a> :: fn var
-//%% @pub
-//%% @ret r
-//%% @spec
-        ensures r == (if is_node(*self) { Some(node_of(*self).var) } else { None }),
 //%% end
+}
 
+impl<'a> BddPtr<'a> {
 //%% extract src/repr/bdd.rs :: impl<'a> BddPtr<'a> :: fn var_safe
 //%% @ret r
 //%% @spec
